@@ -1,14 +1,50 @@
 import PycommModel.OpsPath
 import PycommModel.Target
 import PycommModel.Logix.Services
+import PycommModel.Slc
 namespace Pycomm
 open Sexp Tgt Path
 
 /-- extension state of the full target -/
 structure Ext where
   logix : Option Lgx.LState := none
+  slc : Option Slc.Table := none
+
+/-- PCCC object (class 0x67, instance 1), Execute PCCC service 0x4B -/
+def pcccService (tbl : Slc.Table) (d : Bytes) : Slc.Table × MRReply :=
+  -- requestor id: length (7), vendor id (2), serial number (4)
+  if d.length < 7 + 5 then (tbl, { status := 0x13 }) else
+  if u8at d 0 ≠ 7 then (tbl, { status := 0x13 }) else
+  let rid := d.take 7
+  let cmd := u8at d 7
+  let tns := (d.drop 9).take 2
+  let fnc := u8at d 11
+  let reply (sts : Nat) (data : Bytes) : MRReply := { data := rid ++ [UInt8.ofNat (cmd + 0x40), UInt8.ofNat sts] ++ tns ++ data }
+  if cmd ≠ 0x0F ∨ u8at d 8 ≠ 0 then (tbl, reply 0x10 []) else
+  if d.length < 17 then (tbl, reply 0x10 []) else
+  let size := u8at d 12
+  let fnum := u8at d 13
+  let ftype := u8at d 14
+  let elem := u8at d 15
+  let sub := u8at d 16
+  if fnc = 0xA2 then
+    if d.length ≠ 17 then (tbl, reply 0x10 []) else
+    match Slc.typedRead tbl size fnum ftype elem sub with
+    | .ok bs => (tbl, reply 0 bs)
+    | .error e => (tbl, reply e [])
+  else if fnc = 0xAB then
+    if d.length < 19 then (tbl, reply 0x10 []) else
+    match Slc.maskedWrite tbl size fnum ftype elem sub (leAt d 17 2) (d.drop 19) with
+    | .ok t' => (t', reply 0 [])
+    | .error e => (tbl, reply e [])
+  else (tbl, reply 0x10 [])
 
 def hookAll : ObjHook Ext := fun t cs req =>
+  match t.ext.slc, req.path, req.service with
+  | some tbl, [.logical 0 0x67, .logical 4 1], 0x4B =>
+      let (tbl', r) := pcccService tbl req.data
+      some ({ t with ext := { t.ext with slc := some tbl' } }, r)
+  | _, _, _ =>
   match t.ext.logix with
   | none => none
   | some st =>
@@ -80,8 +116,16 @@ def logix? : Sexp → Option Lgx.LState
                        readSchedule := ← rd.mapM Sexp.toNat? } }
   | _ => none
 
+def slcFile? : Sexp → Option Slc.SlcFile
+  | .list [.atom "file", n, t, d] => do pure { num := ← Sexp.toNat? n, ftype := ← Sexp.toNat? t, data := ← Sexp.bytes? d }
+  | _ => none
+
 def targetNew : List Sexp → Option FullTarget
   | [b] => (base? b).map fun base => { base := base, ext := {} }
+  | [b, .list (.atom "slc" :: files)] => do
+      let base ← base? b
+      let fs ← files.mapM slcFile?
+      pure { base := base, ext := { slc := some fs } }
   | [b, l] => do
       let base ← base? b
       let lg ← logix? l
@@ -89,6 +133,11 @@ def targetNew : List Sexp → Option FullTarget
   | _ => none
 
 def renderSymMem (s : Lgx.Symbol) : String := "(" ++ toString s.inst ++ " " ++ (Sexp.ofBytes s.mem).render ++ ")"
+
+def targetSlc (t : FullTarget) : String :=
+  match t.ext.slc with
+  | none => "none"
+  | some tbl => "ok " ++ " ".intercalate (tbl.map fun f => s!"(file {f.num} {f.ftype} " ++ (Sexp.ofBytes f.data).render ++ ")")
 
 /-- memory image and write log of the Logix project -/
 def targetMem (t : FullTarget) : String :=
